@@ -141,3 +141,24 @@ func vc_Mysql56GTIDSet_ContainsGTID_ensures_member(set Mysql56GTIDSet, gtid GTID
 		return !(ivs[k].start <= gtid56.Sequence && gtid56.Sequence <= ivs[k].end)
 	})
 }
+
+// ---- Mysql56GTIDSet.AddGTID: never alters the set it was added to (C18, frame) ----
+//
+// The contract is thin on purpose: what is decided is that no execution writes memory that existed before the
+// call — every store goes into the map and the slices this call made (frame obligations at every store and at
+// every in-place append) — and that no index or slice expression can go out of range. That the result is the
+// union in canonical form is not decided here.
+
+// (the membership test at the start needs the canonical form of the GTID's own interval list, see ContainsGTID)
+func vc_Mysql56GTIDSet_AddGTID_requires(set Mysql56GTIDSet, gtid GTID) bool {
+	g, ok := gtid.(Mysql56GTID)
+	return ok && specIntervalsCanonical(set[g.Server])
+}
+
+// outer loop: one pass per server id of the receiver
+func vc_Mysql56GTIDSet_AddGTID_loop1_inv(newSet Mysql56GTIDSet) bool { return vspec.Owned(newSet) }
+
+// inner loop: the intervals of the GTID's server id; the list under construction is memory of this call
+func vc_Mysql56GTIDSet_AddGTID_loop2_inv(rangeindex int, intervals []interval, newIntervals []interval) bool {
+	return rangeindex >= -1 && rangeindex < len(intervals) && vspec.Owned(newIntervals)
+}
